@@ -20,6 +20,7 @@ func init() {
 			"C01.4 the guard functions have the required shape (GetPermission = map lookup by FingerprintAddr(arg); GetChannelByNumber returns only the element whose Number equals the argument; GrantPermission returns nil only if the handler is nil or returned true for the passed arguments; ipMatchesFamily true only under family==v4/v6 with the To4/To16 tests); " +
 			"C01.6 the address installed in a permission/binding is decoded into storage local to the installing invocation (no aliasing with later decodes, so the entry expires under its own key); " +
 			"C01.7 (=C07.1) permission timers are armed only from the permission timeout and channel timers only from the channel timeout (a swap lets one outlive its configured lifetime); " +
+			"C01.8 every listener's read loop runs on the allocation manager that was created from that listener's own configuration (its PermissionHandler and relay generator), not on a manager picked from a table; " +
 			"C01.5 the expiry closures remove exactly their own entry (RemovePermission(p.Addr) deletes key FingerprintAddr(addr); RemoveChannelBind(c.Number) removes the element with that number).",
 		NotCovered: "that expiry happens at the right instant; the operator's policy; interleavings between the guard and the write.",
 		Run:        runC01,
@@ -34,6 +35,7 @@ func runC01(c *Ctx) {
 	ruleExpiryRemoves(c, "C01.5")
 	ruleInstalledAddrFresh(c, "C01.6")
 	ruleTimerRoles(c, "C01.7")
+	ruleListenerOwnManager(c, "C01.8")
 }
 
 // ---------------------------------------------------------------------------------
@@ -887,4 +889,130 @@ func ruleInstalledAddrFresh(c *Ctx, rule string) {
 			}
 		}
 	}
+}
+
+// ruleListenerOwnManager (C01.8). The operator's permission handler is per listener
+// (PacketConnConfig.PermissionHandler / ListenerConfig.PermissionHandler); it takes effect only
+// through the allocation.Manager built from it. So the manager a listener's loop is started
+// with has to be the one created from that very configuration value.
+func ruleListenerOwnManager(c *Ctx, rule string) {
+	w := c.W
+	c.Rule(rule, "own manager: for every call of Server.readLoop / Server.readListener the manager argument is result #0 of a createAllocationManager call whose handler and generator arguments are fields of the same configuration value whose PacketConn / Listener field is the call's connection argument (followed through the goroutine's parameters)", 2)
+	rl := w.Func("turn", "Server", "readLoop")
+	rlis := w.Func("turn", "Server", "readListener")
+	mk := w.Func("turn", "Server", "createAllocationManager")
+	// cfgRoot: the configuration VALUE a field read comes from (the per-iteration element)
+	var root func(v ssa.Value, site *ssa.Go, d int) (ssa.Value, string)
+	root = func(v ssa.Value, site *ssa.Go, d int) (ssa.Value, string) {
+		if d > 8 {
+			return v, ""
+		}
+		v = stripIface(v)
+		switch x := v.(type) {
+		case *ssa.Field:
+			r, _ := root(x.X, site, d+1)
+			return r, x.X.Type().Underlying().(*types.Struct).Field(x.Field).Name()
+		case *ssa.UnOp:
+			if x.Op == token.MUL {
+				if fa, ok := x.X.(*ssa.FieldAddr); ok {
+					r, _ := root(fa.X, site, d+1)
+					return r, derefStruct(fa.X.Type()).Field(fa.Field).Name()
+				}
+				if rv := w.resolveLoad(x); rv != ssa.Value(x) {
+					return root(rv, site, d+1)
+				}
+				return root(x.X, site, d+1)
+			}
+		case *ssa.Alloc:
+			if ss := w.stores[w.locKey(x)]; len(ss) == 1 && ss[0].Addr == ssa.Value(x) {
+				return root(ss[0].Val, site, d+1)
+			}
+		case *ssa.FreeVar:
+			// captured per-iteration variable (go func() { … cfg … am … }())
+			if b := w.binding(x); b != nil {
+				return root(b, nil, d+1)
+			}
+		case *ssa.Parameter:
+			if site != nil {
+				body := site.Call.StaticCallee()
+				if mc, ok := site.Call.Value.(*ssa.MakeClosure); ok {
+					body = w.closureBody(mc)
+				}
+				if x.Parent() == body {
+					if i := paramIndex(x); i >= 0 && i < len(site.Call.Args) {
+						return root(site.Call.Args[i], nil, d+1)
+					}
+				}
+			}
+		}
+		return v, ""
+	}
+	n := 0
+	for _, fn := range w.ModFns {
+		if fnPkgPath(fn) != fnPkgPath(rl) {
+			continue
+		}
+		w.eachInstr(fn, func(in ssa.Instruction) {
+			call, ok := in.(*ssa.Call)
+			if !ok || (call.Call.StaticCallee() != rl && call.Call.StaticCallee() != rlis) || len(call.Call.Args) < 3 {
+				return
+			}
+			if call.Call.StaticCallee() == rl && fn == rlis {
+				return // the per-connection loop of a stream listener: its manager is readListener's own parameter
+			}
+			if w.partOf(fn, rlis) {
+				return
+			}
+			n++
+			c.Anchor(rule, fname(fn)+"→"+call.Call.StaticCallee().Name())
+			// the goroutine start this call runs in
+			var site *ssa.Go
+			for _, g := range w.goSitesOf(fn) {
+				site = g
+			}
+			connRoot, connField := root(call.Call.Args[1], site, 0)
+			amv, _ := root(call.Call.Args[2], site, 0)
+			mc, idx := callOf(w.resolveLoad(amv))
+			if mc == nil || mc.Call.StaticCallee() != mk || idx > 0 {
+				c.Bad(rule, fname(fn), "manager", w.instrPos(in), "the allocation manager this listener's loop runs on is "+w.desc(amv)+", not the result of createAllocationManager for this listener's configuration: the listener's own PermissionHandler may never be consulted, so a peer it refuses is installed all the same")
+				return
+			}
+			okAll := connField == "PacketConn" || connField == "Listener"
+			for _, a := range mc.Call.Args[1:] {
+				r, f := root(a, nil, 0)
+				if f == "" || r != connRoot {
+					okAll = false
+				}
+			}
+			if okAll {
+				c.OK(rule, fname(fn), "manager", w.instrPos(in), "manager created from the PermissionHandler and RelayAddressGenerator of the configuration whose "+connField+" the loop reads")
+			} else {
+				c.Bad(rule, fname(fn), "manager", w.instrPos(in), "the manager is created from another configuration value than the one whose connection the loop reads")
+			}
+		})
+	}
+	if n == 0 {
+		c.Bad(rule, "-", "manager", "-", "no start of a listener loop found: anchor gone")
+	}
+}
+
+// goSitesOf: the `go` statements that start fn (a function literal or a named function).
+func (w *World) goSitesOf(fn *ssa.Function) []*ssa.Go {
+	var out []*ssa.Go
+	for _, f := range w.ModFns {
+		w.eachInstr(f, func(in ssa.Instruction) {
+			g, ok := in.(*ssa.Go)
+			if !ok {
+				return
+			}
+			if mc, isMC := g.Call.Value.(*ssa.MakeClosure); isMC {
+				if w.closureBody(mc) == fn {
+					out = append(out, g)
+				}
+			} else if g.Call.StaticCallee() == fn {
+				out = append(out, g)
+			}
+		})
+	}
+	return out
 }
